@@ -10,7 +10,7 @@ Mention(k) == [c |-> "plain", txt |-> CoreTxt(Z(k))]            \* a ZID written
 Mentions == { <<0, 0>>, <<1, 2>>, <<1, 3>>, <<3, 1>>, <<2, 3>> }   \* <<who, whom>>: note `who` mentions the ZID of `whom`
 It(kind, prio, ws, cont) == [k |-> "item", kind |-> kind, prio |-> prio, gap |-> 1, w |-> ws, cont |-> cont]
 M(who, m) == IF m[1] = who THEN << Plain("see"), Mention(m[2]), Plain("here") >> ELSE << >>
-N1(m) == It("-", None, << Z(1), Plain("first"), Plain("note") >> \o M(1, m), << >>)
+N1(m) == It("-", None, << Z(1), Plain("first"), Tag("projects", "tp_x"), Plain("note") >> \o M(1, m), << >>)
 N2(m, withCont) == It("o", "P2", << Z(2), Plain("second"), Tag("contexts", "own") >> \o M(2, m),
                       IF withCont THEN << [k |-> "bullet", ind |-> 2, mark |-> "*", w |-> << Plain("detail"), Plain("line") >>] >> ELSE << >>)
 N3(m, bare) == It("-", None, << Z(3) >> \o (IF bare THEN << >> ELSE << Plain("third") >>) \o M(3, m), << >>)
